@@ -146,3 +146,31 @@ def outcome(text: str, want=None):
         if isinstance(e, (KeyboardInterrupt, SystemExit, MemoryError)):
             raise
         return "raise", e
+
+
+# ---------------------------------------------------------------------------------------------
+# "non-ASCII text included": code points a verbatim text may contain.  A line is what str.splitlines() yields, so the
+# line-boundary characters cannot occur inside one; surrogates cannot occur in decoded text.
+LINE_BOUNDARY_CPS = {0x0A, 0x0B, 0x0C, 0x0D, 0x1C, 0x1D, 0x1E, 0x85, 0x2028, 0x2029}
+SPECIAL_CPS = [
+    0xFEFF, 0xFFFE, 0xFFFF, 0xFFFD, 0x200B, 0x200C, 0x200D, 0x200E, 0x200F, 0x2060, 0x00AD, 0x061C, 0x180E,   # zero width / format
+    0x0000, 0x0001, 0x0008, 0x001B, 0x001F, 0x007F, 0x0080, 0x009F,                                           # controls
+    0x0009, 0x00A0, 0x1680, 0x2000, 0x2003, 0x200A, 0x202F, 0x205F, 0x3000,                                   # blanks
+    0x0301, 0x0338, 0x20E3, 0xFE0F,                                                                           # combining
+    0xFF02, 0x201C, 0x201D, 0x00AB, 0x0027, 0x0060, 0x005C, 0xFF1D, 0xFF3B, 0xFF5B,                           # look-alikes of " = [ {
+    0x0660, 0x06F0, 0x0966, 0xFF10, 0x00B2, 0x2155,                                                           # digits of other scripts
+    0x00E9, 0x00DF, 0x0130, 0x0131, 0x01C5, 0x1E9E, 0x4E2D, 0x3042, 0xAC00, 0x05D0, 0x0627,                   # letters
+    0xE000, 0xF8FF, 0x1F3B8, 0x1F600, 0x10000, 0x2FFFF, 0xE0001, 0x10FFFF,                                    # private use / astral
+]
+
+
+def wide_chars(r, n_random=40):
+    """The special code points above plus n_random seeded ones from the whole code space (no line boundaries, no
+    surrogates, not the ASCII quote)."""
+    out = [c for c in SPECIAL_CPS]
+    while len(out) < len(SPECIAL_CPS) + n_random:
+        c = r.choice([r.randrange(0x80, 0x3000), r.randrange(0x3000, 0x10000), r.randrange(0x10000, 0x110000), r.randrange(0, 0x80)])
+        if c in LINE_BOUNDARY_CPS or 0xD800 <= c <= 0xDFFF or c == 0x22:
+            continue
+        out.append(c)
+    return [chr(c) for c in out]
